@@ -35,19 +35,33 @@ structure ShapeOK (sh : Shape) : Prop where
   sorted : ∀ br ∈ sh, br.2.Pairwise (fun a b => a.off < b.off)
   lower : ∀ br ∈ sh, ∀ m ∈ br.2, br.1 ≤ m.off
   order : sh.Pairwise (fun s t => s.1 < t.1 ∧ ∀ m ∈ s.2, m.off < t.1)
-  nonempty : ∀ j (hj : j + 1 < sh.length), (sh[j]'(by omega)).2 ≠ []
+  nonempty : ∀ br ∈ sh.dropLast, br.2 ≠ []
   base0 : ∀ br ∈ sh, 0 ≤ br.1
 
-/-- Every index of the segment — the loaded one, and the file unless it has no items (then
-it is rebuilt on load) — names the records. -/
+theorem mem_dropLast_of_idx {α : Type} (l : List α) (j : Nat) (hj : j + 1 < l.length) :
+    (l[j]'(by omega)) ∈ l.dropLast := by
+  have h1 : j < l.dropLast.length := by simp only [List.length_dropLast]; omega
+  have : l.dropLast[j] = l[j]'(by omega) := by simp [List.getElem_dropLast]
+  rw [← this]; exact List.getElem_mem h1
+
+theorem ShapeOK.nonempty_idx {sh : Shape} (h : ShapeOK sh) (j : Nat) (hj : j + 1 < sh.length) :
+    (sh[j]'(by omega)).2 ≠ [] := h.nonempty _ (mem_dropLast_of_idx sh j hj)
+
+/-- Every index of the segment — the loaded one and the file — names the records. -/
 structure IdxOK (s : Seg) : Prop where
   mem : ∀ its, s.mem = some its → ItemsFor s.ver s.recs its
-  idx : ∀ f, s.idxf = some f → f.items ≠ [] → ItemsFor s.ver s.recs f.items
+  idx : ∀ f, s.idxf = some f → ItemsFor s.ver s.recs f.items
+
+/-- The head of a read-write log has its index in memory (the writer's) and the same items
+in its index file (every publish appends to both). -/
+structure HeadOK (h : Seg) : Prop where
+  loaded : ∃ its, h.mem = some its ∧ ∃ f, h.idxf = some f ∧ f.items = its
 
 structure Inv (l : Log) : Prop where
   shape : ShapeOK (shape l.segs)
   idx : ∀ s ∈ l.segs, IdxOK s
   next : l.opts.readonly = false → l.wNextOff = shapeNext (Klev.shape l.segs)
+  head : l.opts.readonly = false → ∀ h, l.segs.getLast? = some h → HeadOK h
 
 /-! ### loading an index keeps the shape -/
 
@@ -71,7 +85,7 @@ theorem loadIndex_spec (o : Opts) (s : Seg) (h : IdxOK s) :
       · intro its hi
         simp only [Option.some.injEq] at hi
         subst hi; exact derive_itemsFor _ _ _
-      · intro f hf _
+      · intro f hf
         simp only [Option.some.injEq] at hf
         subst hf; exact derive_itemsFor _ _ _
     · simp only [hr]
@@ -82,13 +96,13 @@ theorem loadIndex_spec (o : Opts) (s : Seg) (h : IdxOK s) :
         have hne : f.items ≠ [] := by
           intro he
           simp [needsReindex, hf, he] at hr
-        refine ⟨by triv, by triv, by triv, h.idx f hf hne, ⟨?_, ?_⟩, by triv⟩
+        refine ⟨by triv, by triv, by triv, h.idx f hf, ⟨?_, ?_⟩, by triv⟩
         · intro its hi
           simp only [Option.some.injEq] at hi
-          subst hi; exact h.idx f hf hne
-        · intro f' hf' hne'
+          subst hi; exact h.idx f hf
+        · intro f' hf'
           simp only [Option.some.injEq] at hf'
-          subst hf'; exact h.idx f hf hne'
+          subst hf'; exact h.idx f hf
 
 theorem shape_set_same (segs : List Seg) (i : Nat) (s' : Seg) (hi : i < segs.length)
     (hb : s'.base = (segs[i]).base) (hr : s'.recs = (segs[i]).recs) :
@@ -115,7 +129,7 @@ theorem withIndex_spec (l : Log) (i : Nat) (hinv : Inv l) (hi : i < l.segs.lengt
   refine ⟨_, _, _, _, rfl, hb, hv, hr, by rw [hv, hr]; exact hit, rfl, ?_, ?_, rfl, rfl, rfl, ?_⟩
   · have hsh : shape (setSeg l i (loadIndex l.opts l.segs[i]).1).segs = shape l.segs := by
       unfold setSeg; exact shape_set_same l.segs i _ hi hb hr
-    refine ⟨by rw [hsh]; exact hinv.shape, ?_, ?_⟩
+    refine ⟨by rw [hsh]; exact hinv.shape, ?_, ?_, ?_⟩
     · intro s hs'
       unfold setSeg at hs'
       simp only at hs'
@@ -125,6 +139,28 @@ theorem withIndex_spec (l : Log) (i : Nat) (hinv : Inv l) (hi : i < l.segs.lengt
     · intro hro
       rw [hsh]
       exact hinv.next hro
+    · intro hro h hh
+      unfold setSeg at hh
+      simp only at hh
+      rw [List.getLast?_eq_getElem?, List.getElem?_set] at hh
+      simp only [List.length_set] at hh
+      by_cases hc : i = l.segs.length - 1
+      · -- the head's index is already in memory: loading returns the segment unchanged
+        simp only [hc, if_true] at hh
+        have hlt : l.segs.length - 1 < l.segs.length := by omega
+        simp only [hlt, if_true, Option.some.injEq] at hh
+        have hlast : l.segs.getLast? = some (l.segs[i]) := by
+          rw [List.getLast?_eq_getElem?, List.getElem?_eq_getElem (by omega)]
+          simp only [hc]
+        obtain ⟨its, hm, hf⟩ := (hinv.head hro _ hlast).loaded
+        have hsame : (loadIndex l.opts l.segs[i]).1 = l.segs[i] := by
+          unfold loadIndex; rw [hm]
+        subst hc
+        rw [← hh, hsame]
+        exact ⟨its, hm, hf⟩
+      · simp only [hc, if_false] at hh
+        rw [← List.getLast?_eq_getElem?] at hh
+        exact hinv.head hro h hh
   · unfold setSeg; exact shape_set_same l.segs i _ hi hb hr
   · unfold setSeg; simp
 
